@@ -71,7 +71,11 @@ impl<'b, 'a> VTuples<'b, 'a> {
     pub fn into_buffer(self) -> (r: VBuf) ensures r.n == (if self.buf is Some { 1usize } else { 0usize }), *final(self.it) == *old(self.it) { VBuf { n: if self.buf.is_some() { 1 } else { 0 } } }
 }
 pub struct VBuf { pub n: usize }
-impl VBuf { pub fn len(&self) -> (r: usize) ensures r == self.n { self.n } }
+impl VBuf {
+    pub fn len(&self) -> (r: usize) ensures r == self.n { self.n }
+    // the buffer of itertools' tuple adaptor is itself an iterator over the left-over elements (at most one for pairs)
+    pub fn next(&mut self) -> (r: Option<()>) ensures r is Some <==> old(self).n > 0 { if self.n > 0 { self.n = self.n - 1; Some(()) } else { None } }
+}
 pub trait VUnzip<A, B>: Sized {
     #[verifier::prophetic]
     spec fn uz_items(&self) -> Seq<(A, B)>;
